@@ -248,7 +248,7 @@ impl BincodeOptions {
 /// `get_checksums_file_path` (storage.rs): `<project_dir>/.zinoma/<target>.checksums` — string formatting, assumed
 //@fn src/engine/incremental/storage.rs get_checksums_file_path assumed ret=r
 //@contract
-    ensures /*[C18.path,C02.record-kept]*/ r == state_path(target.project_dir, target.id),
+    ensures /*[C18.path,C02.record-kept,C02.own-record,C03.own-record]*/ r == state_path(target.project_dir, target.id),
 //@end
 
 /// `work_dir::get_work_dir_path`
@@ -335,7 +335,7 @@ pub fn serialize_into(f: StdFile, s: &TargetEnvState, Tracked(w): Tracked<&mut W
         r is Some ==> *final(w) == *old(w),
         /*[C03.read-back]*/ old(w).store.contains_key(state_path(target.project_dir, target.id)) && old(w).store[state_path(target.project_dir, target.id)] is State
             && !read_fails(state_path(target.project_dir, target.id)) ==> r is Some,
-        /*[C05.corrupt,C18.frame-read]*/ r is None ==> final(w).store == old(w).store || final(w).store == old(w).store.remove(state_path(target.project_dir, target.id)),
+        /*[C05.corrupt,C18.frame-read,C08.state-untouched]*/ r is None ==> final(w).store == old(w).store || final(w).store == old(w).store.remove(state_path(target.project_dir, target.id)),
         /*[C05.corrupt]*/ r is None && old(w).store.contains_key(state_path(target.project_dir, target.id)) && final(w).store.contains_key(state_path(target.project_dir, target.id)) ==> final(w).store == old(w).store,
         *final(w) == (World { store: final(w).store, ..*old(w) }),
 //@end
@@ -343,8 +343,8 @@ pub fn serialize_into(f: StdFile, s: &TargetEnvState, Tracked(w): Tracked<&mut W
 //@fn src/engine/incremental/storage.rs delete_saved_env_state ret=r
 //@contract
     ensures
-        /*[C05.delete-first,C12.state,C18.frame-delete]*/ r is Ok ==> final(w).store == old(w).store.remove(state_path(target.project_dir, target.id)),
-        /*[C18.frame-delete]*/ r is Err ==> final(w).store == old(w).store,
+        /*[C05.delete-first,C12.state,C18.frame-delete,C08.state-untouched]*/ r is Ok ==> final(w).store == old(w).store.remove(state_path(target.project_dir, target.id)),
+        /*[C18.frame-delete,C08.state-untouched]*/ r is Err ==> final(w).store == old(w).store,
         *final(w) == (World { store: final(w).store, ..*old(w) }),
 //@end
 
@@ -360,8 +360,8 @@ pub fn serialize_into(f: StdFile, s: &TargetEnvState, Tracked(w): Tracked<&mut W
 //@closure 0 skeleton=`task::spawn_blocking(<CLOSURE>).await` becomes=`save_closure(file_path, target_id, env_state, Tracked(w))`
 //@contract
     ensures
-        /*[C03.record,C02.record-kept,C18.frame-save]*/ r is Ok ==> final(w).store == old(w).store.insert(state_path(target.project_dir, target.id), Stored::State(env_state.view())),
-        /*[C05.write-on-success-only,C18.frame-save]*/ r is Err ==> final(w).store == old(w).store || final(w).store == old(w).store.insert(state_path(target.project_dir, target.id), Stored::Garbage),
+        /*[C03.record,C02.record-kept,C18.frame-save,C08.state-untouched,C03.own-record]*/ r is Ok ==> final(w).store == old(w).store.insert(state_path(target.project_dir, target.id), Stored::State(env_state.view())),
+        /*[C05.write-on-success-only,C18.frame-save,C08.state-untouched,C03.own-record]*/ r is Err ==> final(w).store == old(w).store || final(w).store == old(w).store.insert(state_path(target.project_dir, target.id), Stored::Garbage),
         *final(w) == (World { store: final(w).store, ..*old(w) }),
 //@end
 
@@ -878,7 +878,7 @@ pub fn await_build(future: BuildFuture, target: &TargetMetadata, Tracked(w): Tra
         /*[C05.write-on-success-only]*/ (r is Err || r matches Ok(IncrementalRunResult::Cancelled)) ==>
             !final(w).store.contains_key(state_path(target.project_dir, target.id))
             || (final(w).builds == old(w).builds && same_or_dropped(old(w).store, final(w).store, state_path(target.project_dir, target.id))),
-        /*[C18.frame-run]*/ frame(old(w).store, final(w).store, state_path(target.project_dir, target.id)),
+        /*[C18.frame-run,C08.state-untouched,C03.own-record]*/ frame(old(w).store, final(w).store, state_path(target.project_dir, target.id)),
         /*[C03.record,C06.record-precedes]*/ r matches Ok(IncrementalRunResult::Completed) && final(w).store.contains_key(state_path(target.project_dir, target.id)) ==>
             (final(w).store[state_path(target.project_dir, target.id)] matches Stored::State(ev) ==>
                 is_rs_state(ev.input, old(w).snap, *target_input)
